@@ -173,9 +173,40 @@ func (e *Engine) evalInvariant(st *State, cls []Clause, it, it0, visited Term, a
 	return out
 }
 
+// autoCandidates: the candidate invariants in use for a map-range loop that has none of its own. All candidates that
+// evaluate over this map's sorts start out in use; verifyFunction drops those whose entry/preservation obligation
+// fails and runs the function again, so only inductive candidates are ever assumed.
+func (e *Engine) autoCandidates(st *State, fn *ssa.Function, sr *symRange) []Clause {
+	if e.contracts == nil || e.autoLoop == nil {
+		return nil
+	}
+	key := fmt.Sprintf("%s.loop%d", fnName(fn), sr.ordinal)
+	idxs, ok := e.autoLoop[key]
+	if !ok {
+		for i, c := range e.contracts.candidates {
+			probe := st.clone()
+			emptySet := constArr(sr.keySort, SBool, TFalse)
+			if ts := e.evalInvariant(probe, []Clause{c}, sr.m0, sr.m0, emptySet, false); ts != nil && probe.incomplete == "" {
+				idxs = append(idxs, i)
+			}
+		}
+		e.autoLoop[key] = idxs
+	}
+	out := []Clause{{Kind: "invariant", Node: mustParseRSL("true"), Src: "true", Name: "auto:" + key + "#true"}}
+	for _, i := range idxs {
+		c := e.contracts.candidates[i]
+		c.Name = fmt.Sprintf("auto:%s#%d", key, i)
+		out = append(out, c)
+	}
+	return out
+}
+
 func (e *Engine) symRangeNext(st *State, fr *Frame, in *ssa.Next, it *rangeIter) bool {
 	sr := it.sym
 	cls := e.loopInvariants(fr.fn, sr.ordinal)
+	if cls == nil {
+		cls = e.autoCandidates(st, fr.fn, sr)
+	}
 	if cls == nil {
 		st.incomplete = fmt.Sprintf("range over a symbolic map without a loop invariant (loop %d of %s) at %s", sr.ordinal, fr.fn.Name(), e.pos(in.Pos()))
 		e.endPath(st)
@@ -645,6 +676,10 @@ func (e *Engine) genericLoopHeader(st *State, fr *Frame, b *ssa.BasicBlock) (han
 		return false, false
 	}
 	cls := e.loopInvariants(fr.fn, ord)
+	if cls == nil && !e.unrollAll && e.autoCut[fmt.Sprintf("%s/%d", fr.fn.String(), b.Index)] {
+		cls = []Clause{{Kind: "invariant", Node: mustParseRSL("true"), Src: "true",
+			Name: fmt.Sprintf("auto:%s.loop%d#true", fnName(fr.fn), ord)}}
+	}
 	if cls == nil || e.unrollAll {
 		return false, false
 	}
